@@ -260,6 +260,7 @@ func HC06_files() {
 		}
 	}
 	okSelf, okClosure, okOnce := true, true, true
+	onlyBasicMissing := true // every undefined helper is the helper of a basic or time type
 	for file, text := range texts {
 		for _, imp := range imports[file] {
 			okSelf = okSelf && imp != file
@@ -282,13 +283,14 @@ func HC06_files() {
 			}
 			if !found {
 				vfObserve("undefined", file+":"+u)
+				onlyBasicMissing = onlyBasicMissing && (u == "int" || u == "string" || u == "bool" || u == "double" || u == "dateTime")
 			}
 			okClosure = okClosure && found
 		}
 	}
 	vfAssert(okSelf, "C06/no-file-imports-itself")
 	vfAssert(okOnce, "C06/json-helpers-defined-once-per-file")
-	vfKnown("C06/helper-of-a-basic-type-reached-only-through-a-named-type-of-another-file", c06HasNamedBasic(ty, map[an.Type]bool{}))
+	vfKnown("C06/helper-of-a-basic-type-reached-only-through-a-named-type-of-another-file", onlyBasicMissing && c06HasNamedBasic(ty, map[an.Type]bool{}))
 	vfAssert(okClosure, "C06/every-json-helper-used-is-defined-in-the-file-or-an-imported-file")
 	vfObserve("files", len(texts))
 }
